@@ -340,10 +340,13 @@ func (i *iteratorRole) GetState() sm.State {
 }
 
 func (i *iteratorRole) IsEnabled() bool {
+	// Only valid after ProcessTemplates.
+	// The template role's own `enabled` field is never evaluated (it may hold an expression that is only
+	// meaningful per iteration): the iterator is enabled as long as at least one generated role is.
 	if i == nil || i.template == nil {
 		return false
 	}
-	return i.template.IsEnabled()
+	return len(i.Roles) > 0
 }
 
 func (i *iteratorRole) setParent(role Updatable) {
